@@ -162,6 +162,10 @@ def filter_oracle(case, in_grid, x, obs):
         except Exception as e:  # noqa
             bad.append(('filter-raises', 'FourierFilter (%s transfer function) raised %s: %s' % (kind, type(e).__name__, e)))
             continue
+        if Ax.shape != np.asarray(x).shape or Ay.shape != np.asarray(x).shape:
+            bad.append(('filter-adjoint', 'FourierFilter (%s transfer function) returned an array of shape %s / %s for an input of shape %s' % (
+                kind, Ax.shape, Ay.shape, np.asarray(x).shape)))
+            continue
         lhs = inner(np.asarray(y), Ax, 1.0)
         rhs = inner(Ay, np.asarray(x), 1.0)
         scale = max(1.0, float(np.sum(np.abs(np.asarray(y)) * np.abs(Ax))), float(np.sum(np.abs(Ay) * np.abs(np.asarray(x)))))
